@@ -17,7 +17,7 @@ MOD = "C11"
 class JacobianMonitor(solvex.Monitor):
     def on_end(self, ex):
         if ex.outcome != "returned":
-            if ex.outcome == "raised":
+            if ex.outcome == "raised" and not mon.raise_is_allowed(ex):
                 ex.violate("returns", "solve raised %s: %s" % (type(ex.exc).__name__, ex.exc))
             return
         s = ex.soln
@@ -150,6 +150,10 @@ def _configs(tier, salts):
                                        "memo": False, "noise_amp": 0.01, "nsamples": "const2", "tag_restart": rmode,
                                        "user_params": cfgs.user_params(npt, cfgs.RESTART_MODES[rmode])}
                                 out.append((cfg, {"depth": 0}))
+        if salt == 0 or tier == "thorough":
+            for name, cfg in cfgs.broad_cfgs(salt=salt, exclude=("reg", "sets"), budgets=tuple(range(4, 64, 3 if tier == "quick" else 1))):
+                cfg = dict(cfg, tag_restart="broad")
+                out.append((cfg, {"depth": 0}))
     return out
 
 
